@@ -57,10 +57,11 @@ def plan(tier, seed):
         for shp in shapes:
             tasks.append({"kind": "kernels", "bits": bits, "shape": list(shp)})
     # size ladder: payloads around 2^16 .. 2^22 elements with non power-of-two dimensions (tiling / blocking / caching code paths)
-    big = [(65537, 3), (4099, 521), (131075, 8)] if tier == "quick" else [(65537, 3), (4099, 521), (131075, 8), (16385, 129), (4096, 2817), (1048579, 2), (3, 1048583)]
+    big = [(65537, 3), (4099, 521), (131075, 8)] if tier == "quick" else [(65537, 3), (4099, 521), (131075, 8), (16385, 129), (4096, 2817), (1048579, 2), (3, 1048583), (4100, 4224), (32771, 1031)]
     for bits in (2, 4):
         for shp in big:
             tasks.append({"kind": "large", "bits": bits, "shape": list(shp)})
+        tasks.append({"kind": "repeat", "bits": bits, "n": 80 if tier == "quick" else 600})
     for bits in (2, 4):
         tasks.append({"kind": "ops", "bits": bits, "maxL": 9 if tier == "quick" else 19})
         tasks.append({"kind": "programs", "bits": bits, "depth": 3 if tier == "quick" else 4})
@@ -250,6 +251,9 @@ def _kernel_case(case):
     return evals, vs, routes_hit
 
 
+from ..num import poison as num_poison
+
+
 def _large_case(case):
     """Round trip and kernel equivalence far beyond the exhaustive bound (values are a position-dependent pattern)."""
     from optimum.quanto.library.ops import disable_extensions
@@ -264,7 +268,9 @@ def _large_case(case):
     held = []
     for rep in range(2):  # two tensors of the same shape, results held and compared afterwards (shared-buffer reuse)
         tt = (t + rep) % (1 << bits)
+        num_poison(n, -(-n * bits // 8))
         p = PackedTensor.pack(tt.clone(), bits)
+        num_poison(n)
         held.append((tt, p, p.unpack()))
     for tt, p, u in held:
         if tuple(p._data.shape) != (-(-shape[0] * bits // 8), shape[1]):
@@ -280,6 +286,27 @@ def _large_case(case):
             if o.shape != ref.shape or not torch.equal(o, ref):
                 vs.append(violation(PID, case, dict(fields, route=r), f"large: route {r} differs from the reference unpack for payload {tuple(p._data.shape)} bits {bits}"))
     return 8, vs
+
+
+def _repeat_case(case):
+    """Repetition ladder: n same-shaped tensors are packed and unpacked, every result is kept and compared at the end."""
+    from optimum.quanto.tensor.qbits.packed import PackedTensor
+
+    bits, n = case["bits"], case["n"]
+    fields = {"kind": "repeat", "bits": bits}
+    vs = []
+    held = []
+    for shape in ((5, 8), (16, 3)):
+        for i in range(n):
+            t = ((torch.arange(shape[0] * shape[1]) * 5 + i) % (1 << bits)).to(torch.uint8).reshape(shape)
+            p = PackedTensor.pack(t.clone(), bits)
+            u = p.unpack()
+            held.append((i, t, p, u))
+    for i, t, p, u in held:
+        if not torch.equal(u, t) or not torch.equal(p.unpack(), t):
+            vs.append(violation(PID, case, fields, f"repeat: result #{i + 1} of {n} same-shaped pack/unpack calls no longer equals its source after the later calls (shape {tuple(t.shape)} bits {bits})"))
+            break
+    return len(held) * 2, vs
 
 
 def _ops_case(case):
@@ -483,6 +510,13 @@ def run_task(task):
         for r, n in routes.items():
             out["counters"]["route_" + r] = n
         out["samples"].append(dict(task, k=137, layout="transposed"))
+    elif kind == "repeat":
+        ev, vs = _repeat_case(task)
+        out["evals"] = ev
+        out["nontrivial"] = ev
+        out["points"] = 1
+        out["calls"] = ev
+        out["violations"] = vs[:6]
     elif kind == "large":
         ev, vs = _large_case(task)
         out["evals"] = ev
@@ -519,6 +553,8 @@ def replay_task(case):
         return _roundtrip_case(case)[1]
     if kind == "kernels":
         return [v for v in _kernel_case(case)[1] if v["case"].get("k") == case.get("k") and v["case"].get("layout") == case.get("layout")]
+    if kind == "repeat":
+        return _repeat_case(case)[1]
     if kind == "large":
         return _large_case(case)[1]
     if kind == "ops":
